@@ -397,6 +397,37 @@ def r14h(ctx, classes):
                        'than its fake-quantised counterpart (other taps / output size)',
                        where(fwd, e.node))
     ctx.floor('R14h', 'functional convolution calls in back-end forwards', n, 4)
+    # ... and the explicit pad that replaces the convolution's own padding pads each spatial
+    # axis with that axis' padding: torch's ConstantPad2d takes (left, right, top, bottom), i.e.
+    # the LAST axis first; a single int taken from padding[0] pads both axes alike
+    npad = 0
+    for be, ci in classes:
+        init = ci.methods.get('__init__')
+        if init is None:
+            continue
+        seen = set()
+        for p in paths(repo, init):
+            for e in p.events:
+                if not (e.kind == 'setattr' and e.data[0] == SELF and
+                        (callee(e.data[2]) or '').endswith(('ConstantPad2d', 'ZeroPad2d'))):
+                    continue
+                a = e.data[2][2][0] if e.data[2][2] else None
+                if a is None or not mentions(a, lambda x: x == ('attr', SELF, 'padding')):
+                    continue
+                if getattr(e.node, 'lineno', 0) in seen:
+                    continue
+                seen.add(getattr(e.node, 'lineno', 0))
+                npad += 1
+                ax = lambda i: ('sub', ('attr', SELF, 'padding'), ('const', i))     # noqa: E731
+                ok = a[0] == 'tuple' and tuple(a[1]) == (ax(1), ax(1), ax(0), ax(0))
+                ctx.ob('R14h', f'{ci.name}.__init__ explicit pad follows the padding of each axis',
+                       ok, '(left, right, top, bottom) = (padding[1], padding[1], padding[0], '
+                       'padding[0])' if ok else
+                       f'the pad module is built from {short(a, 80)}: for padding=(p0, p1) with '
+                       f'p0 != p1 the integer layer pads the last axis with the wrong amount and '
+                       f'returns another output size than its fake-quantised counterpart',
+                       where(init, e.node))
+    ctx.floor('R14h', 'explicit pad modules built from the layer padding', npad, 1)
 
 
 def r14c(ctx, classes):
